@@ -385,3 +385,56 @@ pub fn c16_fs_simple_only() {
     kani::cover!(matches!(simple, FsEventKind::Remove), "remove");
     assert!(matches!(t, Tag::FileEventKind(k) if k == want), "C16: coarse fs kind parsed wrongly");
 }
+
+/// (e) signals on the wire: Signal -> SerdeSignal -> Signal is the identity for every first-class
+/// signal and every Custom(n), first-class signals use their documented names (never a bare
+/// number) and custom ones a number.
+#[kani::proof]
+pub fn c16_signal_wire_roundtrip() {
+    use watchexec_signals::verif::{NamedSignal, SerdeSignal};
+    use watchexec_signals::Signal;
+    let s = any_signal();
+    let wire = SerdeSignal::from(s);
+    kani::cover!(matches!(wire, SerdeSignal::Number(_)), "numeric wire form");
+    kani::cover!(matches!(wire, SerdeSignal::Named(NamedSignal::User2)), "named wire form");
+    match (s, wire) {
+        (Signal::Custom(n), SerdeSignal::Number(m)) => assert!(n == m, "C16: custom signal number changed on the wire"),
+        (Signal::Custom(_), SerdeSignal::Named(_)) => panic!("C16: custom signal written as a name"),
+        (_, SerdeSignal::Number(_)) => panic!("C16: first-class signal written as a number"),
+        (Signal::Hangup, SerdeSignal::Named(NamedSignal::Hangup))
+        | (Signal::ForceStop, SerdeSignal::Named(NamedSignal::ForceStop))
+        | (Signal::Interrupt, SerdeSignal::Named(NamedSignal::Interrupt))
+        | (Signal::Quit, SerdeSignal::Named(NamedSignal::Quit))
+        | (Signal::Terminate, SerdeSignal::Named(NamedSignal::Terminate))
+        | (Signal::User1, SerdeSignal::Named(NamedSignal::User1))
+        | (Signal::User2, SerdeSignal::Named(NamedSignal::User2)) => {}
+        _ => panic!("C16: first-class signal written under another signal's name"),
+    }
+    assert!(Signal::from(wire) == s, "C16: signal changed across the wire conversion");
+}
+
+/// and the reverse direction, from an arbitrary wire value
+#[kani::proof]
+pub fn c16_signal_wire_parse() {
+    use watchexec_signals::verif::{NamedSignal, SerdeSignal};
+    use watchexec_signals::Signal;
+    let k: u8 = kani::any();
+    let wire = match k {
+        0 => SerdeSignal::Named(NamedSignal::Hangup),
+        1 => SerdeSignal::Named(NamedSignal::ForceStop),
+        2 => SerdeSignal::Named(NamedSignal::Interrupt),
+        3 => SerdeSignal::Named(NamedSignal::Quit),
+        4 => SerdeSignal::Named(NamedSignal::Terminate),
+        5 => SerdeSignal::Named(NamedSignal::User1),
+        6 => SerdeSignal::Named(NamedSignal::User2),
+        _ => SerdeSignal::Number(kani::any()),
+    };
+    let s = Signal::from(wire);
+    kani::cover!(matches!(s, Signal::Custom(_)), "custom");
+    let back = SerdeSignal::from(s);
+    match (wire, back) {
+        (SerdeSignal::Number(a), SerdeSignal::Number(b)) => assert!(a == b, "C16: wire number not preserved"),
+        (SerdeSignal::Named(a), SerdeSignal::Named(b)) => assert!(a as u8 == b as u8, "C16: wire name not preserved"),
+        _ => panic!("C16: wire form of a signal changed class"),
+    }
+}
